@@ -151,6 +151,33 @@ func (r *renderer) val1(v ssa.Value, d int) string {
 	case *ssa.SliceToArrayPointer:
 		return r.val(v.X, d)
 	case *ssa.Slice:
+		if al, ok := v.X.(*ssa.Alloc); ok && v.Low == nil && v.High == nil {
+			if at, ok := deref(al.Type()).Underlying().(*types.Array); ok && at.Len() <= 16 {
+				elems := make([]string, at.Len())
+				for i := range elems {
+					elems[i] = "_"
+				}
+				if al.Referrers() != nil {
+					for _, ref := range *al.Referrers() {
+						ia, ok := ref.(*ssa.IndexAddr)
+						if !ok || ia.Referrers() == nil {
+							continue
+						}
+						k, ok := ia.Index.(*ssa.Const)
+						if !ok || k.Value == nil {
+							continue
+						}
+						idx := int(k.Int64())
+						for _, r2 := range *ia.Referrers() {
+							if st, ok := r2.(*ssa.Store); ok && st.Addr == ssa.Value(ia) && idx < len(elems) {
+								elems[idx] = r.val(st.Val, d+1)
+							}
+						}
+					}
+				}
+				return "[" + strings.Join(elems, ", ") + "]"
+			}
+		}
 		lo, hi := "", ""
 		if v.Low != nil {
 			lo = r.val(v.Low, d+1)
